@@ -298,6 +298,7 @@ class PF:
         self.offsets = None
         self.steps = [0] * len(self.levels) if steps is None else [int(s) for s in steps]
         self.ref_line_extra = int(ref_line_extra)
+        self.version = VERSION       # free text chosen by the writing code (IAMR / PeleLM write NavierStokes-V1.1)
 
     # -- derived quantities ---------------------------------------------------
     @property
@@ -558,7 +559,7 @@ def _write_level_header(fpath, nc, nghost, boxes, files, offsets, mins, maxs, ty
 def header_lines(pf):
     """The lines (no newline) of the plotfile `Header`."""
     nd = pf.ndims
-    lines = [VERSION, str(pf.nf)]
+    lines = [getattr(pf, 'version', VERSION), str(pf.nf)]
     lines.extend(pf.names)
     lines.append(str(nd))
     lines.append(repr(pf.time))
